@@ -17,8 +17,6 @@ from __future__ import annotations
 import copy
 import itertools
 import json
-import math
-import os
 from fractions import Fraction
 from typing import Any, Dict, List, Tuple
 
@@ -35,7 +33,6 @@ NAN_V, PINF, NINF = 3000000, 2000000, -2000000
 LOW = ["a", "a10", "b"]          # sort before every "c::.." id
 HIGH = ["d", "e", "é"]      # sort after
 HALF_LIVES = [1, 3, 200]
-REPO = os.environ.get("VERIF_REPO", "/repo")
 
 
 # ------------------------------------------------------------------------------------------------
